@@ -6,7 +6,7 @@ MONT = pow(2, 32, Q)
 RULE = ("random polynomials with |coeff| <= 4, < q and the 256 single-spike inputs +-(q-1) (forward), inputs < q (inverse), "
         "operands < 9q (pointwise); follow-up stages chain ntt -> pointwise -> invntt_tomont on the implementation's own "
         "outputs. Each answer is checked against plain evaluation at the 256 roots 1753^(2*brv8(i)+1), the bound 9q / q, and "
-        "the schoolbook negacyclic product. distinct_nontrivial = distinct requests with a non-zero input.")
+        "the schoolbook negacyclic product. distinct_nontrivial = distinct requests with a non-zero input. Slice-level transforms on windows at word offsets 1..7 of a larger buffer.")
 EXPLANATION = ("Props/C13.lean: kernel-checked facts about the ZETAS table regenerated from ntt.rs (tree relations zeta_{2k}^2 = zeta_k, "
                "zeta_{2k+1}^2 = -zeta_k, zeta_1^2 = -1 in Montgomery form, F = 2^64/256, table bound) and the NTT evaluation theorem; "
                "the tie checks the code against the mathematical definition directly.")
